@@ -4,6 +4,7 @@
   on every command; what is proved here is the truth of what success values report.
 -/
 import ErgoProofs.Lemmas.ReachInv
+import ErgoProofs.Lemmas.PropsAux
 namespace Ergo
 
 /-- a command that exits non-zero wrote nothing: there is no state for a success value to misreport -/
@@ -11,5 +12,35 @@ theorem C16_error_means_no_write (log : List Event) (env : Env) (req : Request) 
     (h : (runCmd log env req).err = some e) : (runCmd log env req).write = none :=
   (runCmd_err_unchanged log env req e h).2
 
+
+/-- a created id is fresh: not live, not pruned, one of the RNG's draws; and a following read shows the item -/
+theorem C16_created_id_fresh_and_visible (log : List Event) (g : Graph) (hg : replayRaw log = .ok g) (hinv : AllInv g)
+    (env : Env) (henv : EnvOK g env) (isEpic : Bool) (epicId title body : String) (follow : SetReq) (w : Write) (out : SecOut)
+    (ht : Text.isBlank title = false)
+    (h : runSec log env (.create isEpic epicId title body follow) = .ok (w, out)) :
+    ∃ id, out.created = some id ∧ g.has id = false ∧ g.tombed id = false ∧ id ∈ env.ids ∧
+      ∃ g', replayRaw (applyWrite log w) = .ok g' ∧ g'.has id = true :=
+  created_id_fresh_and_visible log g hg hinv env isEpic epicId title body follow w out h
+
+/-- `claim` reports the task it claimed: after the write that task is doing and claimed by exactly the reported agent -/
+theorem C16_claim_reply_true (log : List Event) (g : Graph) (hg : replayRaw log = .ok g) (hinv : AllInv g)
+    (env : Env) (henv : EnvOK g env) (hag : env.agent ≠ "") (epic : Id) (w : Write) (out : SecOut)
+    (h : runSec log env (.claimOldest epic) = .ok (w, out)) :
+    ∃ t, out.claimed = some t ∧ ∃ g' t', replayRaw (applyWrite log w) = .ok g' ∧ g'.find? t.id = some t' ∧
+      t'.st = .doing ∧ t'.claimedBy = env.agent :=
+  claim_reply_true log g hg hinv env epic w out h
+
+/-- `prune --yes` reports exactly the ids that are gone afterwards -/
+theorem C16_prune_reply_true (log : List Event) (g : Graph) (hg : replayRaw log = .ok g) (hinv : AllInv g)
+    (env : Env) (henv : EnvOK g env) (w : Write) (out : SecOut)
+    (h : runSec log env (.prune true) = .ok (w, out)) :
+    out.pruned = pruneTargets g ∧ ∃ g', replayRaw (applyWrite log w) = .ok g' ∧
+      (∀ i ∈ out.pruned, g'.has i = false) ∧ (∀ t ∈ g.tasks, t.id ∉ out.pruned → g'.has t.id = true) :=
+  prune_reply_true log g hg hinv env w out h
+
+/-- a command that writes nothing either reports an error or is the documented "no ready tasks" answer of `claim` -/
+theorem C16_no_write_means_error (log : List Event) (env : Env) (req : Request) (h : (runCmd log env req).write = none)
+    (hne : ∀ e, req ≠ .claimOldest e) : (runCmd log env req).err ≠ none :=
+  no_write_means_error log env req h hne
 
 end Ergo
